@@ -658,7 +658,24 @@ func (fr *Frame) applyContract(st *State, ct *Contract, callee *ssa.Function, si
 	names := paramNames(callee, sig, callee == nil)
 	env := &SEnv{vc: vc, fr: fr, fn: envFn, cur: st, old: st, vars: map[string]Val{}, ct: ct}
 	bindParams(env, names, args)
+	assumePre := false
+	if top := fr.topContract(); top != nil {
+		for _, pat := range top.AssumePre {
+			if strings.Contains(ct.Key, pat) {
+				assumePre = true
+			}
+		}
+	}
 	for _, rq := range ct.Requires {
+		if assumePre {
+			// the caller's contract declares this precondition a trusted
+			// representation invariant of the callee's type
+			env.assumeMode = true
+			vc.assume(st, env.evalBool(rq.Expr))
+			env.assumeMode = false
+			vc.trusted[fmt.Sprintf("assumed-precondition:%s calls %s [%s]: %s", vc.fnKey, ct.Key, rq.Label, rq.Text)] = true
+			continue
+		}
 		name := fmt.Sprintf("%s/call[%s#%d]/requires[%s]", vc.fnKey, shortCallee(ct.Key), ord, rq.Label)
 		vc.oblige(st, name, "requires", env.evalBool(rq.Expr), rq.Text)
 	}
@@ -1274,6 +1291,10 @@ func (fr *Frame) loopHead(st *State, li *loopInfo) {
 		name := fmt.Sprintf("%s/loop%d/invariant[%s]/init", vc.fnKey, li.ord, inv.Label)
 		vc.oblige(st, name, "invariant-init", env.evalBool(inv.Expr), inv.Text)
 	}
+	for _, en := range ls.Entry {
+		name := fmt.Sprintf("%s/loop%d/entry[%s]", vc.fnKey, li.ord, en.Label)
+		vc.oblige(st, name, "loop-entry", env.evalBool(en.Expr), en.Text)
+	}
 	var frameTs []modTarget
 	hasFrame := fr.contract != nil && fr.contract.HasMod
 	if hasFrame {
@@ -1393,6 +1414,10 @@ func (fr *Frame) loopHead(st *State, li *loopInfo) {
 	for _, inv := range ls.Invariants {
 		vc.assume(st, env2.evalBool(inv.Expr))
 	}
+	for _, as := range ls.Assumes {
+		vc.assume(st, env2.evalBool(as.Expr))
+		vc.trusted[fmt.Sprintf("assumed-loop-invariant:%s/loop%d[%s]: %s", vc.fnKey, li.ord, as.Label, as.Text)] = true
+	}
 	// typing facts of havocked locals
 	for _, a := range locals {
 		if _, ok := st.v[fr.localKey(a, 0)]; ok {
@@ -1446,6 +1471,31 @@ func (fr *Frame) rangeIndex(st *State, k int) Term {
 	return ""
 }
 
+// rangeValue: the slice (or array pointer) that range loop k iterates over; it
+// is evaluated once before the loop, so its header is a register value.
+func (fr *Frame) rangeValue(st *State, k int) Val {
+	for _, li := range fr.loops {
+		if li.ord != k {
+			continue
+		}
+		for _, in := range li.header.Instrs {
+			b, ok := in.(*ssa.BinOp)
+			if !ok || b.Op != token.LSS {
+				continue
+			}
+			if c, ok := b.Y.(*ssa.Call); ok {
+				if bi, ok := c.Call.Value.(*ssa.Builtin); ok && bi.Name() == "len" && len(c.Call.Args) == 1 {
+					v := fr.val(st, c.Call.Args[0])
+					v.T = c.Call.Args[0].Type()
+					return v
+				}
+			}
+		}
+	}
+	fr.vc.reject("$rng(%d): loop is not a range over a slice", k)
+	return Val{}
+}
+
 func (fr *Frame) rangeOfLoop(k int) *ssa.Range {
 	for _, li := range fr.loops {
 		if li.ord != k {
@@ -1464,7 +1514,9 @@ func (fr *Frame) rangeOfLoop(k int) *ssa.Range {
 }
 
 func (fr *Frame) rangeSeen(st *State, k int) Term { return st.v[fr.rangeKey(fr.rangeOfLoop(k))] }
-func (fr *Frame) rangeDom0(st *State, k int) Term { return st.v[fr.rangeKey(fr.rangeOfLoop(k))+":dom0"] }
+func (fr *Frame) rangeDom0(st *State, k int) Term {
+	return st.v[fr.rangeKey(fr.rangeOfLoop(k))+":dom0"]
+}
 
 // lookupLocal finds a source-level local variable by name.
 func (fr *Frame) lookupLocal(st *State, name string, at *ssa.BasicBlock) (Val, bool) {
@@ -1576,4 +1628,12 @@ func domDepth(b *ssa.BasicBlock) int {
 		d++
 	}
 	return d
+}
+
+// topContract: the contract of the function being verified (nil inside inlined frames without one).
+func (fr *Frame) topContract() *Contract {
+	if fr.top {
+		return fr.contract
+	}
+	return nil
 }
